@@ -52,6 +52,7 @@ def plan(tier, seed):
     units += [("domains", i, 16) for i in range(16)]
     units += [("emails",), ("urls", 0), ("urls", 1), ("tld-table",)]
     units += [("stream", u) for u in streams.plan(tier, fams=STREAM_FAMS)]
+    units += core.interp_axis([("emails",), ("tld-table",), ("ips", 0)])
     return units
 
 
